@@ -163,7 +163,9 @@ func checkC09(tier string) *Report {
 	}
 	w0 := worlds[0]
 	var alpha []Op
-	for _, a := range []string{"ACTION_FEE", "ACTION_SWAP", "ACTION_UNSUPPORTED", "ACTION_FOO", "1", ""} {
+	// decimal strings that denote NO int32 (2^32+1, 2^32+2, 1-2^32): an identifier parser that narrows a wider integer
+	// would read them as ACTION_FEE / ACTION_SWAP — they are not aliases (see actionAlias) and must change nothing
+	for _, a := range []string{"ACTION_FEE", "ACTION_SWAP", "ACTION_UNSUPPORTED", "ACTION_FOO", "1", "", "4294967297", "4294967298", "-4294967295"} {
 		alpha = append(alpha, w0.OpPauseAction(a), w0.OpUnpauseAction(a))
 	}
 	alpha = append(alpha, withSigner(alpha[0], w0.Mallory.String(), "mallory"), withSigner(alpha[1], w0.Mallory.String(), "mallory"),
